@@ -24,7 +24,7 @@ def items_of(d):
     """kind -> set of crate-local item paths present in a fact dict"""
     out = {"adt": set(), "trait": set(), "fn": set()}
     for a in d.get("adts", []):
-        if _local(a["path"]):
+        if _local(a.get("path")):
             out["adt"].add(a["path"])
     for im in d.get("impls", []):
         t = im.get("trait")
@@ -49,7 +49,7 @@ def struct_fields(d):
     """adt path -> [(field name, type)] for single-variant ADTs (structs)"""
     out = {}
     for a in d.get("adts", []):
-        if a.get("kind") == "Struct" and len(a.get("variants", [])) == 1 and _local(a["path"]):
+        if a.get("kind") == "Struct" and len(a.get("variants", [])) == 1 and _local(a.get("path")):
             out[a["path"]] = [(f["name"], f["ty"]) for f in a["variants"][0]["fields"]]
     return out
 
@@ -66,34 +66,56 @@ def build_table(dicts):
         for p in paths:
             byname.setdefault(p.rsplit("::", 1)[1], []).append(p)
         table[k] = {n: ps[0] for n, ps in sorted(byname.items()) if len(ps) == 1}
-    fields = {}
-    for d in dicts:
-        for path, fl in struct_fields(d).items():
-            fields.setdefault(path, fl)
-    table["fields"] = {k: [list(x) for x in v] for k, v in sorted(fields.items())}
+    table["fields"] = {d.get("config", "?"): {k: [list(x) for x in v] for k, v in sorted(struct_fields(d).items())} for d in dicts}
     return table
 
 
-def _match_fields(canon_fl, cur_fl, cur_path, canon_path):
-    """current field name -> canonical field name when the two field lists are the same up to names: same length and a one-to-one
-    correspondence by type (exact string after replacing the type's own path, else by outermost constructor), every type distinct"""
-    if len(canon_fl) != len(cur_fl) or not canon_fl:
+def _match_fields(canon_fl, cur_fl, cur_path, canon_path, partial=False):
+    """current field name -> canonical field name when the two field lists are the same up to names: fields whose name is unchanged (and
+    whose type constructor agrees) correspond to themselves; the remaining ones correspond one-to-one by type (exact string after replacing
+    the type's own path, else by outermost constructor), the type being unique among the remaining fields on both sides.  With
+    partial=True the lists may differ in length (some fields moved into a nested private struct): whatever corresponds uniquely is mapped,
+    the rest is left alone."""
+    if not canon_fl or (len(canon_fl) != len(cur_fl) and not partial):
         return None
+    cn = {n: t for n, t in canon_fl}
+    un = {n: t for n, t in cur_fl}
+    same = {n for n in cn if n in un and _ctor(cn[n]) == _ctor(un[n].replace(cur_path, canon_path))}
+    rest_c = [(n, t) for n, t in canon_fl if n not in same]
+    rest_u = [(n, t) for n, t in cur_fl if n not in same]
+    out = {n: n for n in same}
+    if not rest_c:
+        return out
     for key in (lambda t: t.replace(cur_path, canon_path), _ctor):
-        ck = [key(t) for _, t in canon_fl]
-        uk = [key(t) for _, t in cur_fl]
-        if len(set(ck)) == len(ck) and sorted(ck) == sorted(uk):
-            return {cur_fl[uk.index(k)][0]: canon_fl[i][0] for i, k in enumerate(ck)}
-    return None
+        ck = [key(t) for _, t in rest_c]
+        uk = [key(t) for _, t in rest_u]
+        if not partial:
+            if len(set(ck)) == len(ck) and sorted(ck) == sorted(uk):
+                out.update({rest_u[uk.index(k)][0]: rest_c[i][0] for i, k in enumerate(ck)})
+                return out
+        else:
+            got = {}
+            for i, k in enumerate(ck):
+                if ck.count(k) == 1 and uk.count(k) == 1 and rest_u[uk.index(k)][0] not in cn:
+                    got[rest_u[uk.index(k)][0]] = rest_c[i][0]
+            if got:
+                out.update(got)
+                return out
+    return out if partial and same else None
+
+
+def _fields_for(d, table):
+    ft = table.get("fields", {})
+    return ft.get(d.get("config"), {}) if ft and all(isinstance(v, dict) for v in ft.values()) else ft
 
 
 def renamed_structs(d, table):
     """private structs that were RENAMED: a struct of the reference tree that is gone, and exactly one struct that is new in the same
     module with the same field types.  current path -> canonical path"""
     cur = struct_fields(d)
-    ref = {k: [tuple(x) for x in v] for k, v in table.get("fields", {}).items()}
+    ref = {k: [tuple(x) for x in v] for k, v in _fields_for(d, table).items()}
     known_names = set(table.get("adt", {}).values())
-    all_cur_adts = {a["path"] for a in d.get("adts", [])}
+    all_cur_adts = {a["path"] for a in d.get("adts", []) if a.get("path")}
     gone = [p for p in ref if p not in all_cur_adts and p in known_names]
     new = [p for p in cur if p not in ref]
     m = {}
@@ -109,14 +131,14 @@ def field_mapping(d, table):
     """(adt path, current field name) -> canonical field name, for structs whose fields were renamed but kept their types"""
     cur = struct_fields(d)
     fm = {}
-    for path, canon_fl in table.get("fields", {}).items():
+    for path, canon_fl in _fields_for(d, table).items():
         cl = cur.get(path)
         if not cl:
             continue
         canon_fl = [tuple(x) for x in canon_fl]
         if [n for n, _ in cl] == [n for n, _ in canon_fl]:
             continue
-        mm = _match_fields(canon_fl, cl, path, path)
+        mm = _match_fields(canon_fl, cl, path, path, partial=True)
         if mm:
             for a, b in mm.items():
                 if a != b:
